@@ -502,3 +502,64 @@ Proof.
   vm_compute. repeat split; discriminate.
 Qed.
 Print Assumptions unpack_root_ignoring_chdir_refuted.
+
+(* ================= the three walks agree on the entries they touch (strengthening after seed C18-9) =================
+   restore t = the create walk, attribs fl t = the attribute walk of an accepted (sorted) tree with a directory
+   root.  touched sel l p: some call of l selected by sel has path p. *)
+From SqfsV Require Import C06.PassesAgree.
+
+(* for EVERY option set: a path handed to lsetxattr/utimensat/fchownat/fchmodat was handed to
+   mkdir/symlink/mknod/open(O_EXCL) by the create walk: an entry skipped when creating is never turned into a
+   path afterwards *)
+Theorem attr_touches_only_created :
+  forall fl t p, iname t = [] -> is_dir (ikind t) = true ->
+  touched is_attr (attribs fl t) p -> touched is_create (restore t) p.
+Proof. exact attr_touches_only_created_l. Qed.
+Print Assumptions attr_touches_only_created.
+
+(* with -T or -O (options that apply to every inode kind) the two sets are equal: every created entry gets its
+   attributes, whatever was skipped next to it *)
+Theorem passes_agree :
+  forall fl t, iname t = [] -> is_dir (ikind t) = true -> f_times fl = true \/ f_chown fl = true ->
+  forall p, touched is_create (restore t) p <-> touched is_attr (attribs fl t) p.
+Proof. exact passes_agree_l. Qed.
+Print Assumptions passes_agree.
+
+(* with -C every created entry other than a symbolic link is re-moded *)
+Theorem created_get_chmod :
+  forall fl t cs k, iname t = [] -> f_chmod fl = true -> In (cs, k) (visit_root t) -> Forall clean_name cs ->
+  k <> KLnk -> In (OChmod (join cs)) (attribs fl t).
+Proof. exact created_get_chmod_l. Qed.
+Print Assumptions created_get_chmod.
+
+(* non-vacuity: directory d (file pwn inside), file named "d/pwn" next to it (skipped), file "x" after it *)
+Definition s_d_pwn := [100; 47; 112; 119; 110].            (* "d/pwn" *)
+Definition s_x := [120].
+Definition img_slashname : itree :=
+  INode [] KDir [] [] [ INode s_d KDir [] [] [ INode s_pwn KReg [] [] [] ];
+                        INode s_d_pwn KReg [] [] []; INode s_x KLnk s_d [] [] ].
+Example passes_agree_instance :
+  restore img_slashname = [OMkdir s_d; OCreatExcl [100; 47; 112; 119; 110]; OSymlink s_d s_x] /\
+  attribs (mk_uflags true false true false) img_slashname =
+    [OUtimens [100; 47; 112; 119; 110]; OChmod [100; 47; 112; 119; 110]; OUtimens s_d; OChmod s_d; OUtimens s_x] /\
+  skipped img_slashname = [s_d_pwn].
+Proof. vm_compute. repeat split. Qed.
+
+(* MODEL OF SEED C18-9's BUG (not of the code): the gate of the attribute walk applies to directories only.
+   The image above is created completely (3 calls, the entry "d/pwn" skipped), then the attribute walk gives up
+   at the skipped entry: the run fails and the link x, which sorts behind it, never gets its time stamp. *)
+Theorem passes_agree_dirgate_refuted :
+  exists fl t, iname t = [] /\ is_dir (ikind t) = true /\ f_times fl = true /\
+    ~ In OAbort (restore t) /\ In OAbort (attribs_dirgate fl t) /\
+    exists p, touched is_create (restore t) p /\
+              ~ touched is_attr (firstn 4 (attribs_dirgate fl t)) p /\ nth 4 (attribs_dirgate fl t) OAssert = OAbort.
+Proof.
+  exists (mk_uflags true false true false), img_slashname. vm_compute.
+  repeat split; try reflexivity.
+  - intros [H|[H|[H|[]]]]; discriminate.
+  - right. right. right. right. left. reflexivity.
+  - exists s_x. repeat split.
+    + exists (OSymlink s_d s_x). repeat split. right. right. left. reflexivity.
+    + intros (o & Ho & _ & Hp). destruct Ho as [<-|[<-|[<-|[<-|[]]]]]; discriminate.
+Qed.
+Print Assumptions passes_agree_dirgate_refuted.
